@@ -129,6 +129,9 @@ var (
 	rRefuseW  = Rule{"REFUSE-PURE-W", rules.RefusePureW}
 	rEndClear = Rule{"ORD-ENDCLEAR", rules.OrdEndClear}
 	rWrCache  = Rule{"OWN-WRCACHE", rules.OwnWriterCache}
+	rOpaque   = Rule{"TAB-OPAQUE", rules.TabOpaque}
+	rKind     = Rule{"TAB-KIND", rules.TabKind}
+	rCopyLoop = Rule{"TAB-COPYLOOP", rules.TabCopyLoop}
 
 	rGuardW  = Rule{"ERR-GUARD-W", rules.ErrGuardW}
 	rStickyW = Rule{"ERR-STICKY-W", rules.ErrStickyW}
@@ -288,12 +291,12 @@ var registry = map[string]*Property{
 		},
 	},
 	"C16": {
-		Decided:    "Only the determinism clause: MarshalText asks for sorted map keys and with that option encodeMap sorts the keys before emitting any field (ORD-SORTMAP); nothing reachable from Marshal*/Encoder/Writer methods consults a time-, random- or schedule-dependent source, and every map range has an order-insensitive body (OWN-NONDET); the one narrowing on the encode path, int64(v.Uint()), happens only under reflect kinds whose values fit (NUM-NARROW, marshal.go).",
+		Decided:    "Only the determinism clause: MarshalText asks for sorted map keys and with that option encodeMap sorts the keys before emitting any field (ORD-SORTMAP); nothing reachable from Marshal*/Encoder/Writer methods consults a time-, random- or schedule-dependent source, and every map range has an order-insensitive body (OWN-NONDET); the one narrowing on the encode path, int64(v.Uint()), happens only under reflect kinds whose values fit (NUM-NARROW, marshal.go); every struct type without exported fields that the decoder recognises by identity (big.Int, Decimal, Timestamp, time.Time) is recognised by the encoder before the generic field walk (TAB-OPAQUE); every reflect.Kind the decoder accepts as a target is dispatched on by the encoder (TAB-KIND); a Go string marshalled as a symbol is written by its text, never through the '$n'-interpreting string API (OWN-TEXTAUTH, marshal obligations).",
 		Necessary:  "Go's map iteration order is random, so an unsorted map encode or any other nondeterminism source makes MarshalText output differ between runs for the same value.",
-		NotDecided: "value equality after the round trip; kind/opaque-type dispatch agreement between encoder and decoder (TAB-OPAQUE, TAB-KIND not built; finding F21 was repaired)",
+		NotDecided: "value equality after the round trip: field paths through embedded structs, name matching, map keys, pointer/nil handling — behaviour of reflection over caller types",
 		Technique:  "SSA dominance + call-graph reachability from the output API",
 		DesignRef:  "DESIGN.md §3.5, §3.6, §4 C16",
-		Rules:      []Rule{rOrdSortMap, rOwnNondet, only(rNarrow, 1, posHas("ion/marshal.go"))},
+		Rules:      []Rule{rOrdSortMap, rOwnNondet, only(rNarrow, 1, posHas("ion/marshal.go")), rOpaque, rKind, only(rTextAuth, 1, posHas("ion/marshal.go", "ion/unmarshal.go"))},
 	},
 	"C17": {
 		Decided:    "In unmarshal.go: token text and the other nil-if-unknown pointer fields are tested before use (NIL-FIELD); accessor results are dereferenced only under the non-null precondition (NIL-ACC, NIL-ARG); Decoder.Decode/DecodeTo return the reader's error or ErrNoInput, never nil, when Next() reports no value (ORD-NOINPUT); every reflective numeric store is dominated by the matching Overflow test on the same value and operand, every signed-to-unsigned conversion by a sign test, every big.Int extraction by IsUint64 (NUM-REFLECT, NUM-NARROW, NUM-BIG in unmarshal.go).",
@@ -325,12 +328,12 @@ var registry = map[string]*Property{
 		},
 	},
 	"C20": {
-		Decided:    "In cmd/ion-go: a possibly-nil accessor result (typed null) is dereferenced only where known non-nil and is not passed to a callee that dereferences it unguarded (NIL-ACC, NIL-ARG scoped to the command); the copy loop never extracts 64 bits from a big.Int without IsInt64/IsUint64 and never narrows a number out of range (NUM-BIG, NUM-NARROW scoped to the command); it never hands a token's text to a '$n'-interpreting Writer method (OWN-TEXTAUTH, command obligations).",
+		Decided:    "In cmd/ion-go: a possibly-nil accessor result (typed null) is dereferenced only where known non-nil and is not passed to a callee that dereferences it unguarded (NIL-ACC, NIL-ARG scoped to the command); the copy loop never extracts 64 bits from a big.Int without IsInt64/IsUint64 and never narrows a number out of range (NUM-BIG, NUM-NARROW scoped to the command); it never hands a token's text to a '$n'-interpreting Writer method (OWN-TEXTAUTH, command obligations); every Writer value method is called only under the reader Type() it writes, every accessor only under the type it reads, every Ion type has a writing arm and typed nulls go to WriteNullType on the IsNull() edge (TAB-COPYLOOP); every map field the command's writers assign into is initialised where the struct is built (NIL-MAP).",
 		Necessary:  "The copy loop reads every scalar through the nil-returning accessors; an unguarded dereference is a panic on null.int and friends (part of F22, fixed).",
-		NotDecided: "output equivalence, exhaustiveness of the copy switch (TAB-COPYLOOP not built), event stream well-formedness, the panic(err) calls in stringify/symbolify/clobify",
+		NotDecided: "output equivalence, event stream well-formedness (which text helper renders which type), reporting of write failures (11 write errors are assigned to a shadowed err and lost), the panic(err) calls in stringify/symbolify/clobify",
 		Technique:  "SSA must-dataflow of nil facts with inferred callee preconditions",
 		DesignRef:  "DESIGN.md §3.2, §4 C20",
-		Rules:      []Rule{{"NIL-ACC", rules.NilAcc(rules.ScopeCmd, 1)}, {"NIL-ARG", rules.NilArg(rules.ScopeCmd, 1)}, {"NUM-BIG", rules.NumBig(rules.ScopeCmd, 0)}, {"NUM-NARROW", rules.NumNarrow(rules.ScopeCmd, nil, 0)}, only(rTextAuth, 0, posHas("cmd/"))},
+		Rules:      []Rule{{"NIL-ACC", rules.NilAcc(rules.ScopeCmd, 1)}, {"NIL-ARG", rules.NilArg(rules.ScopeCmd, 1)}, {"NUM-BIG", rules.NumBig(rules.ScopeCmd, 0)}, {"NUM-NARROW", rules.NumNarrow(rules.ScopeCmd, nil, 0)}, only(rTextAuth, 0, posHas("cmd/")), rCopyLoop, {"NIL-MAP", rules.NilMap(rules.ScopeCmd, 1)}},
 	},
 }
 
@@ -349,6 +352,10 @@ var devRules = map[string]Rule{
 	"OWN-INPUT":       {"OWN-INPUT", rules.OwnInput},
 	"TAB-DATEVAL":     {"TAB-DATEVAL", rules.TabDateVal},
 	"ORD-STEPIN":      {"ORD-STEPIN", rules.OrdStepIn},
+	"TAB-COPYLOOP":    {"TAB-COPYLOOP", rules.TabCopyLoop},
+	"NIL-MAP":         {"NIL-MAP", rules.NilMap(rules.Scope{Name: "the module"}, 0)},
+	"TAB-OPAQUE":      {"TAB-OPAQUE", rules.TabOpaque},
+	"TAB-KIND":        {"TAB-KIND", rules.TabKind},
 	"ORD-ENDCLEAR":    {"ORD-ENDCLEAR", rules.OrdEndClear},
 	"OWN-WRCACHE":     {"OWN-WRCACHE", rules.OwnWriterCache},
 	"NUM-INDEX":       {"NUM-INDEX", rules.NumIndex(rules.ScopeAlloc, nil, 0)},
